@@ -18,8 +18,11 @@ LEVEL = "fault_enumeration"
 
 BAD_OBJ = ("X",)  # converted to a plain object(): unsupported term type
 BAD_DT = L("x", None, "http://a/dt")  # typed literal (with datatype table size 0)
+# an IRI in a namespace of its own whose text cannot be encoded (lone surrogate): it is rejected
+# by the protobuf layer, i.e. only after the lookup tables have seen it
+BAD_STR = ("I", "http://bad\ud800.example/x")
 SCOPE = "repeat"
-CAUSES = ("unsupported", "datatype_disabled", "short_tuple")
+CAUSES = ("unsupported", "datatype_disabled", "short_tuple", "unencodable_string")
 NS_AFTER = ("http://a/x", "http://a/", "x")  # IRIs whose entries the alphabet's statements use
 
 
@@ -27,7 +30,7 @@ def mutate(st, slot: int, cause: str, nested: bool):
     """Return the raw API statement (list of API terms) made unencodable."""
     if cause == "short_tuple":
         return tuple(st[:slot])  # tuple cut before `slot`
-    bad = BAD_OBJ if cause == "unsupported" else BAD_DT
+    bad = {"unsupported": BAD_OBJ, "unencodable_string": BAD_STR}.get(cause, BAD_DT)
     terms = list(st)
     if nested:
         inner = [terms[0], terms[1], terms[2]][:3]
@@ -209,6 +212,8 @@ def all_cases(L: int):
                         for cause in CAUSES:
                             if cause == "datatype_disabled" and preset[2] != 0:
                                 continue
+                            if cause == "unencodable_string" and (preset[1] == 0 or api == "rdflib"):
+                                continue  # (needs a prefix table; generic terms take any str)
                             for nested in (False, True):
                                 if nested and (api == "rdflib" or cause == "short_tuple"):
                                     continue
@@ -288,7 +293,8 @@ def run(ctx) -> None:
         rule=(
             f"every sequence of length n<=L={L} over the 6-statement 'repeat' scope x every "
             "position x every slot (s,p,o,g and s/p/o inside a quoted triple) x causes "
-            "{unsupported term object, typed literal with datatype table 0, tuple cut short} x "
+            "{unsupported term object, typed literal with datatype table 0, tuple cut short, IRI "
+            "whose text the protobuf layer cannot encode} x "
             "{Triple,Quad,Graph}Stream x {generic, rdflib} x 3 presets x frame sizes; "
             "non-trivial = the statement was really rejected"
         ),
